@@ -2,7 +2,7 @@
     drives the real meta.IfFeature.Evaluate / parser.LoadModuleFromStringWithOptions and writes
     what it observed; everything below is evaluated by Coq. *)
 From Coq Require Import ZArith List Bool Arith Strings.Byte.
-From YV Require Import Base.Verdict Feature.IfFeature Feature.Guard Feature.Deviate.
+From YV Require Import Base.Verdict Feature.IfFeature Feature.Guard Feature.GuardTree Feature.Deviate.
 Import ListNotations.
 
 (** result codes: 0 false, 1 true, 2 error, 3 panic/timeout *)
@@ -125,18 +125,6 @@ Definition spec_load (cfg : fconfig) (declared : list name) (ss : list stmt) : o
   then None
   else Some (map (fun s => map (fun ifs => forallb is_true (guard_vals cfg declared ifs)) (stmt_guards s)) ss).
 
-(** region of known finding 2: every malformed expression stands after one that is off on the
-    same statement (so it is never evaluated), and there is at least one *)
-Fixpoint shadowed (vals : list result) (seen_false : bool) : bool :=
-  match vals with
-  | [] => true
-  | v :: tl => if is_err v then seen_false && shadowed tl seen_false
-               else shadowed tl (seen_false || is_false v)
-  end.
-Definition kf_lazy (cfg : fconfig) (declared : list name) (ss : list stmt) : bool :=
-  existsb (fun s => existsb (fun ifs => existsb is_err (guard_vals cfg declared ifs)) (stmt_guards s)) ss
-  && forallb (fun s => forallb (fun ifs => shadowed (guard_vals cfg declared ifs) false) (stmt_guards s)) ss.
-
 Fixpoint blist_eqb (a b : list bool) : bool :=
   match a, b with
   | [], [] => true
@@ -160,6 +148,57 @@ Definition load_eqb (l : load) (code : Z) (obs : list (list bool)) : bool :=
 Definition spec_load_ok (o : option (list (list bool))) (code : Z) (obs : list (list bool)) : bool :=
   match o with
   | Some os => Z.eqb code 0 && bll_eqb os obs
+  | None => Z.eqb code 1
+  end.
+
+(** ** part (ii), statements at every depth (Feature/GuardTree.v).  Specification oracle: a
+    statement is there exactly when every if-feature expression on it and on each statement it is
+    written inside reads true (independent reader [spec_text]); a malformed expression anywhere
+    fails the load. *)
+Fixpoint spec_ptree (cfg : fconfig) (declared : list name) (anc : bool) (n : node) : ptree :=
+  match n with
+  | Nd _ ifs kids =>
+      let here := anc && forallb is_true (guard_vals cfg declared ifs) in
+      Pt here (map (spec_ptree cfg declared here) kids)
+  end.
+Fixpoint node_has_err (cfg : fconfig) (declared : list name) (n : node) : bool :=
+  match n with
+  | Nd _ ifs kids => existsb is_err (guard_vals cfg declared ifs) || existsb (node_has_err cfg declared) kids
+  end.
+Definition spec_load_tree (cfg : fconfig) (declared : list name) (top : list node) : option (list ptree) :=
+  if existsb (node_has_err cfg declared) top then None
+  else Some (map (spec_ptree cfg declared true) top).
+
+Fixpoint ptree_eqb (a b : ptree) : bool :=
+  match a, b with
+  | Pt x ka, Pt y kb =>
+      Bool.eqb x y &&
+      (fix go (l1 l2 : list ptree) : bool :=
+         match l1, l2 with
+         | [], [] => true
+         | p :: t1, q :: t2 => ptree_eqb p q && go t1 t2
+         | _, _ => false
+         end) ka kb
+  end.
+Fixpoint ptrees_eqb (a b : list ptree) : bool :=
+  match a, b with
+  | [], [] => true
+  | p :: t1, q :: t2 => ptree_eqb p q && ptrees_eqb t1 t2
+  | _, _ => false
+  end.
+
+(** observed: code 0 loaded (with the flag trees), 1 load error, 2 panic / inconsistent tree;
+    [noghost]: no definition that is absent from the listing of its parent is found by name
+    (meta.Find from the nearest enclosing container, list, module, input, output, notification) *)
+Definition tload_eqb (l : tload) (code : Z) (noghost : bool) (obs : list ptree) : bool :=
+  match l with
+  | TLoaded ps => Z.eqb code 0 && noghost && ptrees_eqb ps obs
+  | TErr => Z.eqb code 1
+  | TFuel => false
+  end.
+Definition spec_tload_ok (o : option (list ptree)) (code : Z) (noghost : bool) (obs : list ptree) : bool :=
+  match o with
+  | Some ps => Z.eqb code 0 && noghost && ptrees_eqb ps obs
   | None => Z.eqb code 1
   end.
 
@@ -343,6 +382,10 @@ Inductive case :=
     (* arbitrary bytes; one code per assignment *)
 | CGuard (cfg : fconfig) (declared : list name) (ss : list stmt) (code : Z) (obs : list (list bool))
     (* a module loaded with Options.Features = cfg; per statement: present / refine applied *)
+| CGuardTree (cfg : fconfig) (declared : list name) (top : list node) (code : Z) (noghost : bool) (obs : list ptree)
+    (* a module with guarded statements at every depth (containers, lists, choices and cases,
+       groupings used with refines and augments, module-level augments, rpc/action input and
+       output, notifications); one flag per statement, same shape as [top] *)
 | CDeviate (kind_code : Z) (p : props) (d : deviation) (code : Z) (removed others_ok : bool) (obs : props)
     (* a deviation applied to a node with properties p (0 leaf, 1 leaf-list, 2 list, 3 container) *)
 | CDeviateCopy (kind_code : Z) (p : props) (d : deviation) (code : Z) (removed others_ok : bool) (obs : props)
@@ -384,7 +427,10 @@ Definition classify (c : case) : verdict :=
   | CGuard cfg declared ss code obs =>
       classify_gen (load_eqb (compile cfg declared ss) code obs)
                    (spec_load_ok (spec_load cfg declared ss) code obs)
-                   (if kf_lazy cfg declared ss then Some 2 else None)
+                   None
+  | CGuardTree cfg declared top code noghost obs =>
+      classify_gen (tload_eqb (compile_tree cfg declared top) code noghost obs)
+                   (spec_tload_ok (spec_load_tree cfg declared top) code noghost obs) None
   | CDeviate kc p d code removed others_ok obs =>
       let k := kind_of_code kc in
       classify_gen (dev_corr k d p code removed others_ok obs)
